@@ -327,9 +327,9 @@ def run(prog, st0, entry=0, entry_points=None):
                 base = env.label_addr(prog.canon[name])
                 for j, idx in enumerate(ents):
                     cands.append((add(base, isa.FIXED_JUMP_SIZE * j), idx, f"{name}[{j}]"))
-            seen_pos = set()
+            table_canon = {prog.canon[nm] for nm in prog.tables}
             for name, idx in prog.labels.items():
-                if prog.canon[name] != name or name in prog.tables:
+                if prog.canon[name] != name or name in table_canon:
                     continue
                 cands.append((env.label_addr(name), idx, name))
             for addr, idx, what in cands:
@@ -363,14 +363,15 @@ def run(prog, st0, entry=0, entry_points=None):
 
 def layout_assumptions(prog, env):
     """distinct, non-null code addresses for distinct address points of this text"""
-    pts = []
+    pts = {}
     for name, ents in prog.tables.items():
-        base = env.label_addr(prog.canon[name])
+        c = prog.canon[name]
         for j in range(len(ents)):
-            pts.append(add(base, prog.isa.FIXED_JUMP_SIZE * j))
+            pts[(c, j)] = add(env.label_addr(c), prog.isa.FIXED_JUMP_SIZE * j)
     for name in prog.labels:
-        if prog.canon[name] == name and name not in prog.tables:
-            pts.append(env.label_addr(name))
+        c = prog.canon[name]
+        pts.setdefault((c, 0), env.label_addr(c))
+    pts = list(pts.values())
     out = []
     if len(pts) > 1:
         out.append(z3.Distinct(*[bv(p) for p in pts]))
